@@ -24,6 +24,8 @@ structure Cfg where
   hash : Str → Str
   lower : Str → Str
   hm : Str → Str → Bool := C03.glob
+  /-- `ircutils.hostmaskPatternsIntersect` -/
+  hx : Str → Str → Bool := C16.patIntersect
   /-- `irc.state.nickToHostmask`: nicks the bot has seen, with their hostmask (keys compared with
   `toLower`) -/
   nicks : List (Str × Str) := []
@@ -113,7 +115,7 @@ def St.clash (st : St) (id : Nat) (u : C16.User) : Bool :=
     st.users.any (fun p => p.1 ≠ id &&
       -- the elements of an IrcSet are IrcStrings: `hostmask == authmask` compares them with toLower
       ((st.authOf p.1).any (fun a => C03.toLower a = C03.toLower h) ||
-       st.checkHostmask p.1 p.2 h false || p.2.hostmasks.any (fun o => C03.glob h o))))
+       st.checkHostmask p.1 p.2 h false || p.2.hostmasks.any (fun o => C03.glob h o || C16.patIntersect h o))))
 
 inductive SetRes | ok | duplicate | valueError
 deriving DecidableEq, Repr
@@ -293,7 +295,7 @@ def removeCaps (caps : List Str) : List Str → List Str × Bool × Bool   -- (c
       | .ok s' => removeCaps s' rest
       | .error _ => let r := removeCaps caps rest; (r.1, r.2.1, true)
 
-def envOf (cfg : Cfg) : C16.Env := { hm := cfg.hm, lower := cfg.lower, now := 0 }
+def envOf (cfg : Cfg) : C16.Env := { hm := cfg.hm, lower := cfg.lower, now := 0, hx := cfg.hx }
 
 /-- `users.reload()` on a given file text; a successful load ends with a flush -/
 def reloadUsersFrom (cfg : Cfg) (st : St) (db : C16.UsersDb) : St :=
@@ -405,15 +407,14 @@ def doRegister (cfg : Cfg) (st : St) (pfx name pw : Str) : St × Bool :=
     | none => (st, false)
     | some ah =>
       let id := st.nextId + 1
-      -- when addHostmask raises (after newUser()) the half-built account stays, without hostmask
-      let wild := ah && tooWild pfx
-      let u : C16.User := { name := name, hashed := true, password := cfg.hash pw,
-                            hostmasks := if ah && !wild then [pfx] else [] }
-      let st1 : St := { st with nextId := id, users := st.users ++ [(id, u)] }
-      -- newUser() saves the still empty account; the final setUser saves the complete one
-      if wild then
-        ({ st1 with usaved := some { users := st.users ++ [(id, { hashed := true })], nextId := id } }, false)
-      else (flushU st1, true)
+      -- when addHostmask raises (after newUser()) the half-built account is removed again
+      -- (`delUser`, which saves); only the id stays used up
+      if ah && tooWild pfx then (flushU { st with nextId := id }, false)
+      else
+        let u : C16.User := { name := name, hashed := true, password := cfg.hash pw,
+                              hostmasks := if ah then [pfx] else [] }
+        -- newUser() saves the still empty account; the final setUser saves the complete one
+        (flushU { st with nextId := id, users := st.users ++ [(id, u)] }, true)
 
 /-- body of a command once the gate has let it through; `true` = replied with success -/
 def body (cfg : Cfg) (st : St) (pfx : Str) : Cmd → St × Bool
